@@ -10,3 +10,5 @@ def run(prog, rep):
                        'object path until none is left; handle validity is link count > 0; link-dereferencing getters re-check block '
                        'membership. That every other entity is left untouched by libhdf5 is not decided.')
     r_del.run(prog, rep)
+    from ..rules import r_safe
+    r_safe.run_rawbuf(prog, rep)
